@@ -104,7 +104,7 @@ def patterns(fam):
             (T(L('Rv')), L('Rv')), (L('Rv'), T(L('Rv'))), (T(L('Rs')), L('Rs')), (L('Rs'), T(L('Rs'))),
             (L('Rid'),), (L('Pn'),), (L('Rid'), L('Pn'), L('I')),
             (T(L('Pe')), L('Pe')), (L('Pe'), T(L('Pe'))), (T(L('P0')), L('P0')), (L('P0'), T(L('P0'))),
-            (T(L('P2')), L('P2')), (L('P2'), T(L('P2'))),
+            (T(L('P2')), L('P2')), (L('P2'), T(L('P2'))), (T(L('Pes')), L('Pes')), (L('Pes'), T(L('Pes'))), (T(L('Pc')), L('Pc')),
             (I(L('D1')), L('D1')), (L('D2'), I(L('D2'))), (L('D0'), L('D1')), (L('Tz'), L('To')),
             (L('k'), T(L('Pe')), L('Pe')), (T(L('Rv')), L('Rv'), L('k'), T(L('Mv')), L('Mv')),
         ]
